@@ -343,11 +343,31 @@ def run_hist(v, desc, scratch, keys):
 
 
 # ------------------------------------------------------------------------------------------ map part
+def whole_upstream_case(rng):
+    """Directed family: a mapped function receives an ENTIRE array produced by an earlier mapped function as an ordinary
+    (unlisted) argument while it maps over another input - its cache key must follow the content of that array."""
+    def fn(name, params, outs, mapspec, modes, out_axes):
+        return {"name": name, "params": params, "outs": outs, "mapspec": mapspec, "modes": modes, "out_axes": list(out_axes),
+                "internal": [], "internal_shape": [], "ret_list": False, "ishape_via": None}
+    two_d = rng.random() < 0.3
+    roots = {"x0": {"axes": ["i", "k"] if two_d else ["i"], "kind": "ndarray" if two_d else rng.choice(["list", "ndarray"])},
+             "x1": {"axes": ["j"], "kind": rng.choice(["list", "ndarray"])}}
+    ax0 = ["i", "k"] if two_d else ["i"]
+    funcs = [fn("f0", ["x0"], ["y0"], f"x0[{', '.join(ax0)}] -> y0[{', '.join(ax0)}]", {"x0": list(ax0)}, ax0),
+             fn("f1", ["y0", "x1"], ["y1"], "x1[j] -> y1[j]", {"y0": "whole", "x1": ["j"]}, ["j"])]
+    if rng.random() < 0.5:
+        funcs.append(fn("f2", ["y1", "y0"], ["y2"], None, {"y1": "whole", "y0": "whole"}, []))
+    return {"sizes": {a: rng.randint(2, 3) for a in mapgen.AX}, "roots": roots, "funcs": funcs}
+
+
 def run_maps(v, desc, scratch, keys):
     ctx = multiprocessing.get_context("fork")
     for i in range(desc["start"], desc["start"] + desc["n"]):
         case = mapgen.case_from_seed(desc["seed"], i, max_funcs=3)
         rng = random.Random(f"c09m:{desc['seed']}:{i}")
+        if i % 4 == 3:
+            case = whole_upstream_case(rng)
+            v.count("map_cases_with_whole_upstream_array_argument")
         inputs = mapgen.make_inputs(case)
         if i % 3 == 1:
             # values whose hash() collides although they are unequal: hash(-1) == hash(-2), hash(2**61 - 1) == hash(0),
@@ -426,6 +446,35 @@ def run_maps(v, desc, scratch, keys):
                 if len(calls) < total:
                     v.count("map_cache_hits_observed", total - len(calls))
                     keys.append(f"{mapgen.signature(case)}|{mode}|{ct}|{sorted(cached)}")
+                # the SAME pipeline object maps the same inputs again (into another folder): every invocation of a cached
+                # function now has a resident entry, so none of them may be executed again, and the values are unchanged
+                if mode == "seq" or ct in ("lru", "hybrid"):
+                    probes.log_clear(log)
+                    ex = None
+                    try:
+                        with quiet():
+                            mk2 = dict(mk, run_folder=os.path.join(scratch, f"m2-{i}-{mode}-{ct}"))
+                            if mode == "seq":
+                                res2 = p.map(inputs, parallel=False, **mk2)
+                            else:
+                                ex = ThreadPoolExecutor(3) if mode == "thread" else ProcessPoolExecutor(2, mp_context=ctx)
+                                res2 = p.map(inputs, executor=ex, **mk2)
+                    except Exception as e:  # noqa: BLE001
+                        v.bad(exc_sig(e, f"cached-map-raises-on-repeat/{mode}/{ct}"), f"repeated cached map raised: {exc_msg(e)}", **w)
+                        continue
+                    finally:
+                        if ex is not None:
+                            ex.shutdown(wait=True)
+                    v.count("repeated_cached_maps")
+                    again = [c for c in probes.log_read(log) if c["f"] in cached]
+                    if again:
+                        v.bad(f"cached-map-re-executed/{mode}/{ct}", f"{len(again)} invocation(s) of cached functions re-executed by a repeated map with "
+                              f"equal inputs, e.g. {again[0]['f']} {again[0]['k'][:100]}", **w)
+                    for f in case["funcs"]:
+                        for o in f["outs"]:
+                            if probes.render(res2[o].output) != probes.render(env[o]):
+                                v.bad(f"cached-map-value-on-repeat/{mode}/{ct}", f"{o} differs from the denotation on the repeated cached map", **w)
+                                break
                 os.unlink(log)
 
 
